@@ -98,7 +98,7 @@ func c19Scenarios(tier mc.Tier) []mc.Scenario {
 		return func(c *mc.Ctx) {
 			tl := c.ChooseFree("trustlen", maxLen+1)
 			trustIdx := make([]int, tl)
-			trust := make([]*x509.Certificate, tl)
+			trust := make([]*x509.Certificate, tl) // length 0: an empty, non-nil list
 			for i := 0; i < tl; i++ {
 				trustIdx[i] = c.ChooseFree("trust", np)
 				trust[i] = c19Parse(trustIdx[i]) // a fresh object: pointer identity cannot help the code under test
@@ -195,9 +195,10 @@ func c19Scenarios(tier mc.Tier) []mc.Scenario {
 	gen(nil)
 	out = append(out, mc.Scenario{Name: "nil-signer-info", Body: body(nil, true), Bound: -1, Expect: lists})
 	out = append(out, mc.Scenario{Name: "empty-chain", Body: body([]int{}, false), Bound: -1, Expect: lists})
-	out = append(out, mc.Scenario{Name: "authentic-signing-time", Bound: -1, Expect: 12, Body: func(c *mc.Ctx) {
+	out = append(out, mc.Scenario{Name: "authentic-signing-time", Bound: -1, Expect: 28, Body: func(c *mc.Ctx) {
 		schemes := []signature.SigningScheme{signature.SigningSchemeX509, signature.SigningSchemeX509SigningAuthority, "", "notary.x509.other"}
-		times := []time.Time{{}, pki.Now, time.Unix(0, 0).UTC()}
+		// the zero instant in several representations (IsZero is about the instant, not the location), and non-zero instants
+		times := []time.Time{{}, pki.Now, time.Unix(0, 0).UTC(), time.Time{}.In(time.FixedZone("", 3600)), time.Unix(-62135596800, 0), time.Time{}.UTC(), time.Time{}.Add(time.Nanosecond)}
 		s := schemes[c.ChooseFree("scheme", len(schemes))]
 		t := times[c.ChooseFree("time", len(times))]
 		info := &signature.SignerInfo{SignedAttributes: signature.SignedAttributes{SigningScheme: s, SigningTime: t}}
